@@ -25,6 +25,7 @@ ASSUMPTIONS = [
     "a lockable value must end with the bank locked (lock byte != unlock value); for a non-lockable value the lock byte must be unchanged",
     "ignore_feedback=True exempts the caller-requested case; latch/unlatch use it by design",
 ]
+SANITY = ["writes_with_injected_fault", "writes_to_nonconforming_unit", "writes_returning_normally"]
 BOUNDS = {"quick": "1 fault per run; 4 data patterns; short-write lengths {0,1,n-1}", "thorough": "2 faults per run on values <= 8 bytes, 1 otherwise; 6 data patterns; every short-write length"}
 
 DOC_EXC = ("MemoryLocationNotWriteable", "MemoryWriteFailure", "ResponseError", "MemoryValueNotWriteable", "ValueError")
@@ -148,6 +149,12 @@ def judge(res, cfg, h, row, kind, val, n):
     elif cfg["variant"] == "readonly":
         bites = row[4] in wlocs
     faulted = bool(h.injected)
+    if faulted:
+        observe(res, "writes_with_injected_fault")
+    if nonconforming and bites:
+        observe(res, "writes_to_nonconforming_unit")
+    if kind == "return":
+        observe(res, "writes_returning_normally")
     if kind == "raise":
         if type(val).__name__ not in DOC_EXC:
             add_violation(res, f"C10:undocumented-exception:{type(val).__name__}", f"{cfg} faults {h.injected}: raised {val!r}", case)
